@@ -5,6 +5,7 @@ package state
 import (
 	"bytes"
 	"fmt"
+	"os"
 	"sort"
 	"strings"
 	"testing"
@@ -12,6 +13,7 @@ import (
 	"github.com/ethereum/go-ethereum/common"
 	"github.com/ethereum/go-ethereum/core/rawdb"
 	"github.com/ethereum/go-ethereum/core/state/snapshot"
+	"github.com/ethereum/go-ethereum/core/tracing"
 	"github.com/ethereum/go-ethereum/core/types"
 	"github.com/ethereum/go-ethereum/crypto"
 	"github.com/ethereum/go-ethereum/rlp"
@@ -534,6 +536,22 @@ func TestVerifC14Blocks(t *testing.T) {
 			if w.inTx {
 				w.finalise()
 			}
+			if cfg == "path" && vs.Known("TestVerifC14Blocks", "root-returns-to-disk-layer") {
+				// known finding (notes/C14.md): pathdb rejects a transition whose result is the
+				// current disk layer's root. Excluded by construction: perturb the block.
+				diskRoot := types.EmptyRootHash
+				if lastFlushed != (common.Hash{}) {
+					diskRoot = lastFlushed
+				}
+				if common.Hash(w.m.Root()) == diskRoot && diskRoot != root {
+					w.beginTx(true)
+					w.sdb.AddBalance(vAddrs[0], vAmounts[1], tracing.BalanceChangeUnspecified)
+					w.m.AddBalance(ra(vAddrs[0]), vAmounts[1].ToBig())
+					w.logf("AddBalance A0 1 (avoid known finding)")
+					w.finalise()
+					st.Excluded()
+				}
+			}
 			ir := w.intermediateRoot()
 			newRoot, upd, err := w.sdb.CommitWithUpdate(rs.r, uint64(b+1))
 			if err != nil {
@@ -613,4 +631,32 @@ func TestVerifC14Blocks(t *testing.T) {
 				"final_root": fmt.Sprintf("%x", root)}
 		})
 	})
+}
+
+// TestVerifC14ReturnToDiskRoot is the minimal history of the suspected defect
+// described in notes/C14.md (path scheme: a block whose post-state root equals the
+// root of the current disk layer cannot be committed). It only reports unless
+// VERIF_C14_REPRO=1, so that the randomized check stays usable.
+func TestVerifC14ReturnToDiskRoot(t *testing.T) {
+	vs.OnlyShard0(t)
+	db := vNewDB(rawdb.PathScheme)
+	defer db.Close()
+	rules := vRuleByName("cancun").r
+	s1, _ := New(types.EmptyRootHash, db.sdb)
+	s1.AddBalance(vAddrs[0], vAmounts[1], tracing.BalanceChangeUnspecified)
+	r1, err := s1.Commit(rules, 1)
+	if err != nil {
+		t.Fatalf("VERIF-HARNESS-BUG: block 1 commit: %v", err)
+	}
+	s2, _ := New(r1, db.sdb)
+	s2.SubBalance(vAddrs[0], vAmounts[1], tracing.BalanceChangeUnspecified) // account becomes empty and is removed
+	ir := s2.IntermediateRoot(rules)
+	r2, err := s2.Commit(rules, 2)
+	msg := fmt.Sprintf("block 2: IntermediateRoot=%x (empty root=%v), Commit root=%x err=%v", ir, ir == types.EmptyRootHash, r2, err)
+	t.Log(msg)
+	if err != nil || r2 != ir {
+		if os.Getenv("VERIF_C14_REPRO") == "1" {
+			t.Fatalf("Commit does not return the preceding IntermediateRoot: %s", msg)
+		}
+	}
 }
